@@ -36,6 +36,14 @@ def predict(cfg, q=None):
         out.append(dict(key='G0_axis_length', what='|G0| = %.12g but B0 * (axis length) / (2 pi) = %.12g' % (abs(G0), B0 * L / (2 * pi)), cfg=jsonable(cfg)))
     ngeo = 0
     if q.order == 'r3':
+        # the point-wise converter returns the SAME position vector whose Jacobian is integrated below (assembled here from the helical-angle coefficients)
+        try:
+            dev = toRZ_vs_coefficients(q, np.random.default_rng(7))
+            ngeo += 1
+            if not dev <= 1e-9:
+                out.append(dict(key='toRZ_position', what='to_RZ differs from r0 + X n + Y b + Z t assembled from the returned coefficients by %.3g (relative to R)' % dev, cfg=jsonable(cfg)))
+        except Exception as e:
+            out.append(dict(key='toRZ_position', what='to_RZ raised %s' % type(e).__name__, cfg=jsonable(cfg)))
         # geometric clause: V' and V'' from the Jacobian of the RETURNED position vector (series algebra of oracle_C01; props/C11_volume.v)
         import oracle_C01
         tail = oracle_C01.spectral_tail(q)
